@@ -8,6 +8,7 @@
 
 #include <gmpxx.h>
 
+#include <cassert>
 #include <climits>
 #include <csetjmp>
 #include <functional>
@@ -105,6 +106,9 @@ struct Tot {
 };
 inline Tot& tot() { static Tot t; return t; }
 
+inline long long& skipped_overflow() { static long long n = 0; return n; }
+inline long long& skipped_cascade() { static long long n = 0; return n; }
+
 template <class I>
 struct Ctx {
   std::string fam;     // label of the GUDHI class under test (goes into the mismatch class)
@@ -128,6 +132,10 @@ struct Ctx {
   }
   void fail(const char* obs, const char* regime, const std::string& got, const std::string& want) const {
     std::string cls = "C10:" + fam + ":" + obs + ":" + regime + size;
+    // only the first five occurrences of a class are written out by the harness: later ones are only counted
+    auto& st = vf::stats();
+    auto it = st.mism_by_class.find(cls);
+    if (it != st.mism_by_class.end() && it->second >= 5) { ++it->second; ++st.mismatches; return; }
     vf::mismatch(cls, "got=" + got + " want=" + want + " " + inputs());
   }
   template <class G>
@@ -224,14 +232,18 @@ template <class Ops, class E, class I>
 struct OpsTester {
   Ctx<I>& cx;
   Ops& ops;
+  bool limited = false;  // fused methods documented "not overflow safe": only called when the exact value fits in E
+  I emax = 0;
   OpsTester(Ctx<I>& c, Ops& o) : cx(c), ops(o) {}
+  OpsTester(Ctx<I>& c, Ops& o, const I& max_of_E) : cx(c), ops(o), limited(true), emax(max_of_E) {}
 
   // a, b raw elements (reduced or not, as the documentation of the class allows)
   void binary(const I& A, const I& B, const char* rg) {
     const I& P = cx.P;
     cx.ops(&A, &B);
     E a = from_I<E>(A), b = from_I<E>(B);
-    I s = fmod_(I(A + B), P), d = fmod_(I(A - B), P), m = fmod_(I(A * B), P);
+    I Ar = fmod_(A, P), Br = fmod_(B, P);
+    I s = fmod_(I(Ar + Br), P), d = fmod_(I(Ar - Br), P), m = fmod_(I(Ar * Br), P);
     cx.eq("add", rg, ops.add(a, b), s);
     { E t = a, u = b; ops.add_inplace(t, u); cx.eq("add_inplace", rg, t, s); }
     cx.eq("subtract", rg, ops.subtract(a, b), d);
@@ -239,26 +251,31 @@ struct OpsTester {
     { E t = a, u = b; ops.subtract_inplace_back(t, u); cx.eq("subtract_inplace_back", rg, u, d); }
     cx.eq("multiply", rg, ops.multiply(a, b), m);
     { E t = a, u = b; ops.multiply_inplace(t, u); cx.eq("multiply_inplace", rg, t, m); }
-    cx.eqb("are_equal", rg, ops.are_equal(a, b), fmod_(A, P) == fmod_(B, P));
+    cx.eqb("are_equal", rg, ops.are_equal(a, b), Ar == Br);
     tot().calls += 8;
     ++tot().tuples;
-    if (A + B >= P || A < B || A * B >= P) ++tot().nontrivial;
+    if (!(A < P) || !(B < P) || Ar + Br >= P || Ar < Br || Ar * Br >= P) ++tot().nontrivial;
   }
   void fused(const I& A, const I& B, const I& C, const char* rg) {
     const I& P = cx.P;
     cx.ops(&A, &B, &C);
     E a = from_I<E>(A), b = from_I<E>(B), c = from_I<E>(C);
-    I ma = fmod_(I(A * B + C), P);    // multiply_and_add(e, m, a) = e*m + a
-    I am = fmod_(I((A + B) * C), P);  // add_and_multiply(e, a, m) = (e+a)*m
-    cx.eq("multiply_and_add", rg, ops.multiply_and_add(a, b, c), ma);
-    { E x = a, y = b, z = c; ops.multiply_and_add_inplace_front(x, y, z); cx.eq("multiply_and_add_inplace_front", rg, x, ma); }
-    { E x = a, y = b, z = c; ops.multiply_and_add_inplace_back(x, y, z); cx.eq("multiply_and_add_inplace_back", rg, z, ma); }
-    cx.eq("add_and_multiply", rg, ops.add_and_multiply(a, b, c), am);
-    { E x = a, y = b, z = c; ops.add_and_multiply_inplace_front(x, y, z); cx.eq("add_and_multiply_inplace_front", rg, x, am); }
-    { E x = a, y = b, z = c; ops.add_and_multiply_inplace_back(x, y, z); cx.eq("add_and_multiply_inplace_back", rg, z, am); }
+    I Ar = fmod_(A, P), Br = fmod_(B, P), Cr = fmod_(C, P);
+    I ma = fmod_(I(Ar * Br + Cr), P);    // multiply_and_add(e, m, a) = e*m + a
+    I am = fmod_(I((Ar + Br) * Cr), P);  // add_and_multiply(e, a, m) = (e+a)*m
+    if (!limited || I(A * B + C) <= emax) {
+      cx.eq("multiply_and_add", rg, ops.multiply_and_add(a, b, c), ma);
+      { E x = a, y = b, z = c; ops.multiply_and_add_inplace_front(x, y, z); cx.eq("multiply_and_add_inplace_front", rg, x, ma); }
+      { E x = a, y = b, z = c; ops.multiply_and_add_inplace_back(x, y, z); cx.eq("multiply_and_add_inplace_back", rg, z, ma); }
+    } else ++skipped_overflow();
+    if (!limited || I((A + B) * C) <= emax) {
+      cx.eq("add_and_multiply", rg, ops.add_and_multiply(a, b, c), am);
+      { E x = a, y = b, z = c; ops.add_and_multiply_inplace_front(x, y, z); cx.eq("add_and_multiply_inplace_front", rg, x, am); }
+      { E x = a, y = b, z = c; ops.add_and_multiply_inplace_back(x, y, z); cx.eq("add_and_multiply_inplace_back", rg, z, am); }
+    } else ++skipped_overflow();
     tot().calls += 6;
     ++tot().tuples;
-    if (A * B + C >= P || (A + B) * C >= P) ++tot().nontrivial;
+    if (Ar * Br + Cr >= P || (Ar + Br) * Cr >= P) ++tot().nontrivial;
   }
   void value(const I& A, const char* rg) {
     cx.ops(&A);
@@ -329,8 +346,18 @@ struct ElemTester {
     const char* rg = raw_regime(V, P);
     F fa(from_I<E>(A));
     I Vr = fmod_(V, P);
-    I s = fmod_(I(A + V), P), d = fmod_(I(A - V), P), dr = fmod_(I(V - A), P), m = fmod_(I(A * V), P);
-    { F t(v); cx.eq("ctor(raw)", rg, val(t), Vr); }
+    I s = fmod_(I(A + Vr), P), d = fmod_(I(A - Vr), P), dr = fmod_(I(Vr - A), P), m = fmod_(I(A * Vr), P);
+    ++tot().tuples;
+    if (V < 0 || !(V < P)) ++tot().nontrivial;
+    {
+      // the converting constructor first: when the conversion of this raw value is already wrong, the mixed operators
+      // fed with the same value are not compared (they would only repeat the same finding under 14 more names)
+      F t(v);
+      I g = val(t);
+      cx.eq("ctor(raw)", rg, g, Vr);
+      ++tot().calls;
+      if (!(g == Vr)) { ++skipped_cascade(); cx.rawtype = ""; return; }
+    }
     { F t(fa); t = v; cx.eq("assign(raw)", rg, val(t), Vr); }
     { F t(fa); t += v; cx.eq("op+=(elem,raw)", rg, val(t), s); }
     cx.eq("op+(elem,raw)", rg, val(fa + v), s);
@@ -341,14 +368,14 @@ struct ElemTester {
     { F t(fa); t *= v; cx.eq("op*=(elem,raw)", rg, val(t), m); }
     cx.eq("op*(elem,raw)", rg, val(fa * v), m);
     cx.eq("op*(raw,elem)", rg, To<I>::of(v * fa), m);
-    cx.eqb("op==(elem,raw)", rg, fa == v, A == Vr);
-    cx.eqb("op==(raw,elem)", rg, v == fa, A == Vr);
-    cx.eqb("op!=(elem,raw)", rg, fa != v, A != Vr);
-    cx.eqb("op!=(raw,elem)", rg, v != fa, A != Vr);
+    bool e1 = (fa == v), e2 = (v == fa);
+    cx.eqb("op==(elem,raw)", rg, e1, A == Vr);
+    cx.eqb("op==(raw,elem)", rg, e2, A == Vr);
+    // != is only compared where == was right (same reason as above)
+    if (e1 == (A == Vr)) cx.eqb("op!=(elem,raw)", rg, fa != v, A != Vr); else ++skipped_cascade();
+    if (e2 == (A == Vr)) cx.eqb("op!=(raw,elem)", rg, v != fa, A != Vr); else ++skipped_cascade();
     cx.rawtype = "";
-    tot().calls += 15;
-    ++tot().tuples;
-    if (V < 0 || V >= P) ++tot().nontrivial;
+    tot().calls += 14;
   }
   void field_inverse(const I& X, const char* rg) {
     cx.ops(&X);
